@@ -19,19 +19,82 @@ RULE = ("Hypothesis draws a data-first model - an LP (feasible / infeasible / op
         "declared bound must hold at the returned values within tau = 1e-5*max(1, sum|terms|).  A method that "
         "refuses the model by raising gives no Solution (discard).  Non-trivial = the model is infeasible by "
         "construction or has a constraint/bound that is active at the optimum."
-        '  Also: one third of the cases re-solve the same problem, tighten a bound between two solves (judged against the current bounds), add a list of constraints that cuts off the returned point and solve again, or carry a constraint between parameters only (need <= cap) that is true or false.  Injection stage (one third of the cases): the minimize seam answers the first call with a drawn point, a drawn success flag and a drawn message ("Optimization terminated successfully", "Positive directional derivative for linesearch", "Iteration limit reached", "Inequality constraints incompatible"); later calls (the SLSQP -> trust-constr retry) run the real SciPy; OPTIMAL is still only allowed at a feasible point.')
+        '  Also: one third of the cases re-solve the same problem, tighten a bound between two solves (judged against the current bounds), add a list of constraints that cuts off the returned point and solve again, or carry a constraint between parameters only (need <= cap) that is true or false.  Injection stage (one third of the cases): the minimize seam answers the first call with a drawn point, a drawn success flag and a drawn message ("Optimization terminated successfully", "Positive directional derivative for linesearch", "Iteration limit reached", "Inequality constraints incompatible"); later calls (the SLSQP -> trust-constr retry) run the real SciPy; OPTIMAL is still only allowed at a feasible point.  A sixth of the cases are small models whose constraint functions (sqrt / log of variables) leave their domain next to the unconstrained minimiser: OPTIMAL requires the constraint to be defined and satisfied at the returned point.')
 BUDGET = {"quick": {"workers": 16, "examples": 50}, "thorough": {"workers": 16, "examples": 1500}}
 ASSUMPTIONS = ["only status OPTIMAL is constrained by this property"]
 MANIFEST = {
  "technique": "property-based testing (Hypothesis): data-first feasible/infeasible models x solver methods; feasibility of OPTIMAL points recomputed from the drawn data",
 }
 
-strategy = lambda tier: solvecases.solve_cases()
-sample_repr = solvecases.sample_repr
+from hypothesis import strategies as st
+
+EDGE_METHODS = ["auto", "SLSQP", "SLSQP", "trust-constr", "L-BFGS-B", "BFGS"]
+
+
+@st.composite
+def edge_cases(draw):
+    """models whose constraint functions leave their domain next to the unconstrained minimiser: sqrt / log of a variable"""
+    return {"family": "edge", "template": draw(st.sampled_from(["sqrt", "log", "log-sum", "sqrt-prod"])),
+            "method": draw(st.sampled_from(EDGE_METHODS)), "a": draw(st.sampled_from([1.0, 2.0, 0.5])),
+            "r": draw(st.sampled_from([1.0, 0.5, -5.0])), "bounded": draw(st.booleans())}
+
+
+def strategy(tier):
+    return st.one_of(solvecases.solve_cases(), solvecases.solve_cases(), solvecases.solve_cases(), solvecases.solve_cases(),
+                     solvecases.solve_cases(), edge_cases())
+
+
+def sample_repr(case):
+    return dict(case) if case.get("family") == "edge" else solvecases.sample_repr(case)
+
+
+def _check_edge(case):
+    """OPTIMAL requires every constraint to be DEFINED and satisfied at the returned point (a NaN or -inf value is neither)"""
+    import math
+    from optyx import Problem, Variable, log, sqrt
+    a, r, t, method = case["a"], case["r"], case["template"], case["method"]
+    classes = ["family:edge", "template:" + t, "method:" + method]
+    lb = 0.0 if case["bounded"] else None
+    x, y = Variable("x", lb=lb, ub=10.0 if case["bounded"] else None), Variable("y")
+    with quiet():
+        if t == "sqrt":
+            P = Problem().minimize((x + a) ** 2 + y ** 2).subject_to(sqrt(x) + y >= r)
+            g = lambda vx, vy: math.sqrt(vx) + vy - r
+        elif t == "log":
+            P = Problem().minimize(x + 0 * y).subject_to(log(x) >= r).subject_to(y >= 0)
+            g = lambda vx, vy: math.log(vx) - r
+        elif t == "log-sum":
+            P = Problem().minimize((x + a) ** 2 + (y + a) ** 2).subject_to(log(x + y) >= r)
+            g = lambda vx, vy: math.log(vx + vy) - r
+        else:
+            P = Problem().minimize((x + a) ** 2 + (y - 1) ** 2).subject_to(sqrt(x * y) >= r)
+            g = lambda vx, vy: math.sqrt(vx * vy) - r
+        try:
+            sol = P.solve(method=method)
+        except Exception as ex:
+            classes.append("refused:" + exc_label(ex))
+            return Result.discard("method-refuses-model:" + exc_label(ex), classes)
+    classes.append("status:" + sol.status.value)
+    if sol.status.value != "optimal":
+        return Result.ok(True, classes)
+    vx, vy = sol.values.get("x"), sol.values.get("y", 0.0)
+    try:
+        gv = g(vx, vy)
+        defined = math.isfinite(gv)
+    except (ValueError, ZeroDivisionError, OverflowError):
+        gv, defined = float("nan"), False
+    if not defined:
+        return Result.violation(f"optimal-at-undefined-constraint:{method}",
+                                f"status OPTIMAL at {sol.values} where the constraint function of template {t!r} is not a finite real number; {case}", classes)
+    if gv < -1e-5 * max(1.0, abs(vx) + abs(vy)):
+        return Result.violation(f"optimal-but-constraint-violated:{method}", f"status OPTIMAL at {sol.values}, constraint value {gv}; {case}", classes)
+    return Result.ok(True, classes)
 
 
 def check(case):
     import copy
+    if case.get("family") == "edge":
+        return _check_edge(case)
     model, method = copy.deepcopy(case["model"]), case["method"]
     names = model["names"]
     classes = ["family:" + model["family"], "method:" + method, "flavour:" + model["flavour"]]
